@@ -271,6 +271,33 @@ class Report:
             self.analysed.add(body if isinstance(body, str) else body.path)
 
 
+def _selfcheck(prop, rep):
+    """Thorough tier (c): the property's mutant and benign catalogue on scratch copies (static only)."""
+    outp = os.path.join(VERIF, 'out', 'selfcheck-%s.json' % prop)
+    os.makedirs(os.path.dirname(outp), exist_ok=True)
+    env = dict(os.environ)
+    env.pop('VERIF_REPO', None)
+    p = subprocess.run([sys.executable, os.path.join(VERIF, 'tools', 'selfcheck.py'), 'all', '--props', prop, '-j', '12',
+                        '--json', outp], cwd=VERIF, env=env, stdout=subprocess.PIPE, stderr=subprocess.STDOUT)
+    try:
+        with open(outp) as fh:
+            r = json.load(fh)
+    except (OSError, ValueError):
+        rep.note('selfcheck could not be run: ' + p.stdout.decode(errors='replace')[-300:])
+        sys.stderr.write('SELFCHECK-WEAK %s: runner failed\n' % prop)
+        return
+    mut = [x for x in r['results'] if x['kind'] == 'mutant']
+    ben = [x for x in r['results'] if x['kind'] == 'benign']
+    summary = 'selfcheck: killed %d/%d, silent %d/%d, broken %d' % (r['killed'], len(mut), r['silent'], len(ben), r['broken'])
+    rep.extra['selfcheck'] = summary
+    rep.extra['selfcheck_mutants'] = [{'id': x['id'], 'reported': x['props'].get(prop, {}).get('keys', [])[:3]} for x in mut]
+    rep.extra['selfcheck_benign'] = [{'id': x['id'], 'noise': {k: v['keys'][:2] for k, v in x['props'].items() if v['rc'] != 0}}
+                                     for x in ben]
+    rep.note(summary)
+    if r['missed'] or r['noisy'] or r['broken']:
+        sys.stderr.write('SELFCHECK-WEAK %s: %s\n' % (prop, summary))
+
+
 def load_known():
     p = os.path.join(VERIF, 'known_findings.json')
     if not os.path.exists(p):
@@ -337,6 +364,8 @@ def run_property(prop, tier='quick', explain=None):
                 rep.obligations.append(o)
             if hasattr(mod, 'thorough'):
                 mod.thorough(ctx)
+            if not os.environ.get('VERIF_SELFCHECK') and os.path.abspath(REPO) == '/repo':
+                _selfcheck(prop, rep)
     except ExtractError as e:
         fatal = str(e)
         rep.fail('R0', 'facts', REPO, 'fact extraction failed, nothing could be analysed: ' + fatal[:1500],
